@@ -351,6 +351,12 @@ def chainOf (tpls : Array Tpl) : Nat → Nat → List Nat
 def blockWrappers (tpls : Array Tpl) (chain : List Nat) (name : Bytes) : List (List Node) :=
   chain.filterMap fun i => (tpls[i]!).blocks.lookup name
 
+/-- the private context a macro body runs in: the defining context's names,
+    then every parameter's default (`argsCtx`), then the arguments by position -/
+def macroEnv (base : Env) (defaults : List (Bytes × Val)) (params : List Bytes) (args : List V) : Env :=
+  let priv1 := defaults.foldl (fun (e : Env) kv => e.set kv.1 kv.2) base
+  (params.zip args).foldl (fun (e : Env) pa => e.set pa.1 pa.2.v) priv1
+
 variable (T : LexTables) (cfg : SetCfg) (globals : Env)
 
 mutual
@@ -572,9 +578,7 @@ def callMacro : Nat → Nat → Nat → List V → XM V
     if args.length > md.params.length then xerr "Macro called with too many arguments"
     else
       let base := childOf defFrame
-      let priv1 := defaults.foldl (fun (e : Env) kv => e.set kv.1 kv.2) base.priv
-      let priv2 := (md.params.zip args).foldl (fun (e : Env) pa => e.set pa.1.1 pa.2.v) priv1
-      let out ← withFrame { base with priv := priv2 } (buffered (execNodes fuel md.body))
+      let out ← withFrame { base with priv := macroEnv base.priv defaults (md.params.map (·.1)) args } (buffered (execNodes fuel md.body))
       pure ⟨.str out, true⟩
 
 /-- evaluate in the context `fid` (it is on the stack; evaluation only reads it,
@@ -747,7 +751,7 @@ def execNode : Nat → Node → XM Unit
         | none => pure ()
     | .tagImport binds => do
       let fr ← cur
-      modifyCur fun f => { f with priv := binds.foldl (fun e (alias, idx) => e.set alias (.closure fr.id idx false)) f.priv }
+      modifyCur fun f => { f with priv := binds.foldl (fun e (alias, idx) => e.set alias (.closure fr.id idx true)) f.priv }
     | .tagInclude src only pairs => do
       match src with
       | .empty => pure ()
